@@ -78,7 +78,17 @@ def replay_chunk(args):
             core.tick(case, 180)
             prog = case["prog"]
             rnd = random.Random(f"{seed}-{ci}-{len(prog)}")
-            text, lines_of = render.render_c(prog, seed=rnd.random(), fortran=(ext != ".c"))
+            # some code items are left out: the file then begins / ends with a directive, and directives
+            # follow each other without code in between
+            codes = [i for i, it in enumerate(prog) if it["k"] == "code"]
+            drop = set()
+            edge = rnd.choice(["none", "first", "last", "both", "both"])
+            if edge in ("first", "both"):
+                drop.add(codes[0])
+            if edge in ("last", "both"):
+                drop.add(codes[-1])
+            drop |= {i for i in codes[1:-1] if rnd.random() < 0.1}
+            text, lines_of = render.render_c(prog, seed=rnd.random(), fortran=(ext != ".c"), drop=drop)
             root = os.path.join(d, f"p{ci}")
             os.makedirs(root)
             path = os.path.join(root, "m" + ext)
